@@ -411,6 +411,31 @@ T = {
  'C18-12': ('C18', PROBER, 'backoff in integer arithmetic: `delay += delay / 2` wraps negative below the clamp', 'max above 2/3 of MaxInt64 ns and a retry count reaching the overflow window: negative delay'),
  'C19-11': ('C19', CSUM, 'CRC computed in 4096-byte blocks with `off+block < len(p)`', 'an encoding whose length is an exact multiple of 4096: the last block is not hashed'),
  'C19-12': ('C19', CSUM, 'Unmarshal strips the checksum field with append(data[:0], data[6:]...)', "decode, then look at the same bytes again: the caller's buffer was shifted in place"),
+ # ---- wave 10 (defects hidden inside everyday clean-up refactorings; two per property)
+ 'C01-15': ('C01', GRPCGCP, 'bindSubConn reads (slot, bound) through lookupBinding under RLock, then takes the write lock only to insert, without re-testing', 'two BIND completions carrying the same key on different channels overlap: the second overwrites the binding without an UNBIND'),
+ 'C01-16': ('C01', GRPCGCP, 'unbindSubConn on top of slotOfKey(key), which also returns nil when the key is bound to a connection that left scRefs', 'UNBIND completes after its channel reported SHUTDOWN: the binding stays, the key can never be re-bound'),
+ 'C02-15': ('C02', GRPCGCP, 'min-streams scan as "most headroom below the watermark" with `watermark - uint32(streams)` in uint32', 'a channel above the low watermark: the subtraction wraps, the most loaded channel wins every unkeyed pick'),
+ 'C02-16': ('C02', GRPCGCP, 'UpdateSubConnState tail tidied: Shutdown handled at the end, forgetSubConn runs after regeneratePicker/UpdateState', 'a READY pool member reports SHUTDOWN while another stays READY: the published picker still holds the dead channel'),
+ 'C03-15': ('C03', GRPCGCP, 'getSubConnRoundRobin split into nextRoundRobinRef/awaitReady: newSubConn is called whenever the chosen ref is not READY', 'ROUND_ROBIN bind on a channel in TRANSIENT_FAILURE, none connecting, pool below max: the pool grows although it is not empty'),
+ 'C03-16': ('C03', GRPCGCP, 'pool-capacity check as poolRoom() = maxSize - uint32(len(scRefs)) in uint32', 'minSize > maxSize: the room wraps to 4e9, every saturated call adds a channel'),
+ 'C04-15': ('C04', GRPCGCP, 'recordTransition through a delta table map[State]uint64{old: -1, new: +1}', 'a repeated report of the same state: the later map entry overwrites the earlier, the counter only goes up'),
+ 'C04-16': ('C04', GRPCGCP, 'UpdateSubConnState starts with `s, prevAggrState := scs.ConnectivityState, gb.state` before gb.mu.Lock()', 'two overlapping reports: the second compares its flip with a stale previous aggregate and does not publish'),
+ 'C06-15': ('C06', GRPCGCP, 'leastBusySubConnRef(mayGrow): `(unlimited || getConnectionPoolSize() < max) && mayGrow` evaluates the locking size read first', 'fallback pick on a saturated pool (called with gb.mu held): self-deadlock'),
+ 'C06-16': ('C06', GRPCGCP, 'refresh split into claimRefresh (hands the held lock to the claimant): returns false without unlocking', 'a second qualifying completion while a refresh is under way: gb.mu stays locked for ever'),
+ 'C07-15': ('C07', GRPCGCP, 'swap through untrackSubConn(old)/trackSubConn(sc, ref, s): the replacement is entered as READY instead of with the old state', 'the old connection left READY between the request and the take-over: counters stale, the channel stays out of every picker'),
+ 'C07-16': ('C07', GRPCGCP, 'Pick split into affinityOf/doneCallback: the callback binds to the SubConn captured at pick time', 'a BIND in flight across the take-over: bindSubConn does not find the retired connection, the key is never bound'),
+ 'C08-15': ('C08', GRPCGCP, 'swap extracted into completeRefreshLocked/rekeyLocked: the grouped deletes end with delete(refreshingScRefs, from)', 'after a completed refresh every non-READY report of that channel is dropped as "replacement not ready": stand-ins on it are never purged'),
+ 'C08-16': ('C08', GRPCGCP, 'both purge loops through forgetFallbackLocked(pred), which returns after the first delete', 'several keys in fallback on one stand-in that leaves READY: only one is released'),
+ 'C09-15': ('C09', GRPCGCP, 'round-robin wait loop as `for waiting := true; waiting;` with `waiting = unchanged && state != Ready`', 'the awaited slot changes to a non-READY state: the call is handed that channel'),
+ 'C09-16': ('C09', GRPCGCP, 'state bookkeeping as one tagless switch: the Idle case does `sc.Connect(); return`', 'READY→IDLE is never recorded: a BIND whose turn lands on the slot is handed the IDLE channel'),
+ 'C14-15': ('C14', ME, 'recovery-timer body moved to closeWindow(e, opened, reselect) with isCurrent read when the window opens', 'a non-current endpoint in recovery becomes current through a list change: nobody re-evaluates when the window expires'),
+ 'C14-16': ('C14', ME, 'SetEndpoints through a position map (i+1, 0 = absent) and reconcile(pos): kept endpoints get p, new ones p-1', 'a new endpoint listed directly behind the kept current one ties with it: evicted inside its recovery window'),
+ 'C15-15': ('C15', GRPCGCP, 'UpdateMultiEndpoints split into phases; monitors are started for the created pools as the last step of a successful update', 'a failed update leaves a dialed pool without a monitor; a later update keeps it: its outages are never seen'),
+ 'C15-16': ('C15', GRPCGCP, 'pickConn split into meNames(ctx)/poolFor: gme.defaultName is read before RLock', 'a call racing with an update that renames the default: nil MultiEndpoint, panic'),
+ 'C17-15': ('C17', GRPCGCP, 'ParseConfig starts from a package-level template by shallow copy: every result wraps the same *ApiConfig', 'a second parse rewrites every earlier result'),
+ 'C17-16': ('C17', GRPCGCP, 'the three independent zero-defaults as cases of one switch', 'a present section lacking two of the three settings: only the first is defaulted'),
+ 'C20-15': ('C20', GRPCGCP, 'push loops collected as closures capturing the range variables (go 1.12 semantics), run in two phases', 'a pool of two or more: only the last connection receives the new list'),
+ 'C20-16': ('C20', GRPCGCP, 'completeRefresh releases gb.mu around RemoveSubConn, between the deletes and the inserts', 'a resolver update in the gap reaches neither connection: the replacement takes over with the stale list'),
 }
 
 ENV = dict(os.environ, GOFLAGS='-mod=mod', GOPROXY='off', GOSUMDB='off', GOTOOLCHAIN='local')
